@@ -29,6 +29,8 @@ type bctx struct {
 	// frags: the recipe's fragments (private, or shared between Files in C09's share mode);
 	// a node of kind "shared" places fragment I itself (the same Code value) inside a tree
 	frags []*jen.Statement
+	// slots: statements built empty (node kind "placeholder") that a later "fill" op appends to
+	slots map[int]*jen.Statement
 	// fileFunc[i]: group i is the body of a function declaration added directly to the
 	// File (so whatever is added to it later must show up in the File's next render)
 	fileFunc map[int]bool
@@ -82,6 +84,8 @@ func (c *bctx) build(n *Node) jen.Code {
 		return jen.Lit(n.I)
 	case "str":
 		return jen.Lit(n.S)
+	case "unsupported":
+		return jen.Lit(struct{ X int }{n.I}) // documented: Lit of any other type panics when rendered
 	case "bigstr":
 		return jen.Lit(strings.Repeat("x", n.I))
 	case "qual":
@@ -136,6 +140,13 @@ func (c *bctx) build(n *Node) jen.Code {
 		return jen.Null()
 	case "emptystmt":
 		return jen.Add()
+	case "placeholder":
+		st := jen.Add()
+		if c.slots == nil {
+			c.slots = map[int]*jen.Statement{}
+		}
+		c.slots[n.I] = st
+		return st
 	case "emptytag":
 		return jen.Tag(map[string]string{})
 	case "empty":
@@ -417,6 +428,9 @@ func setupTarget(sub string, plan *FSPlan, op int, prevTarget string) (target st
 		// longer than most outputs, so that a Save that does not truncate shows
 		os.WriteFile(target, []byte(fmt.Sprintf("// KEEP %d\npackage keep\n", op)+strings.Repeat("// old line of a previous, longer version\n", 1+plan.Part*40)), 0644)
 		os.Chtimes(target, oldTime, oldTime)
+		if plan.RO {
+			os.Chmod(target, 0444) // read-only for everybody but root (the sandbox runs as root)
+		}
 	case "isdir":
 		os.MkdirAll(target, 0755)
 		os.WriteFile(filepath.Join(target, "keep.txt"), []byte("KEEP"), 0644)
@@ -567,6 +581,10 @@ func execBody(r *Recipe, env *Env, shared []*jen.Statement) (hist []Outcome) {
 					}
 					ctx.fileFunc[len(ctx.groups)-1] = true // a func's own body group is captured last
 				}
+			case "fill":
+				if st := ctx.slots[op.I]; st != nil {
+					st.Add(ctx.build(op.Node))
+				}
 			case "add_to_group":
 				if len(ctx.groups) > 0 {
 					gi := op.I % len(ctx.groups)
@@ -579,6 +597,16 @@ func execBody(r *Recipe, env *Env, shared []*jen.Statement) (hist []Outcome) {
 				if len(b.frags) > 0 {
 					f.Add(b.frags[op.I%len(b.frags)])
 				}
+			case "gostring":
+				// fmt's %#v on a File: GoString renders the File and panics on error
+				o.Render = true
+				o.Obj = "file"
+				o.NoFormat = f.NoFormat
+				if env.RenderHook != nil {
+					env.RenderHook(true)
+					defer env.RenderHook(false)
+				}
+				o.Out = []byte(f.GoString())
 			case "render", "render_frag", "render_frag_nofile", "render_group", "render_group_nofile", "render_body":
 				o.Render = true
 				o.NoFormat = f.NoFormat
@@ -674,21 +702,24 @@ func execBody(r *Recipe, env *Env, shared []*jen.Statement) (hist []Outcome) {
 					env.Sim.armFS(op.F, faults)
 				}
 				simhook.FSLog = nil
+				// whatever Save does (return, panic), the world afterwards is recorded
+				defer func() {
+					if env.Sim != nil {
+						o.Fired = env.Sim.fsFired
+						env.Sim.armFS(nil, false)
+					}
+					for _, c := range simhook.FSLog {
+						rel, _ := filepath.Rel(sub, c.Name)
+						rel = stableName(rel)
+						o.FSLog = append(o.FSLog, fmt.Sprintf("%s %s size=%d partial=%d injected=%q err=%v", c.Op, rel, c.Size, c.Partial, digitsRe.ReplaceAllString(strings.ReplaceAll(c.Injected, env.Sandbox, "$SANDBOX"), "N"), c.Err != ""))
+					}
+					o.FSAfter = snapshotDir(sub)
+					if st, e := os.Lstat(target); e == nil && st.Mode().IsRegular() {
+						o.SavedOK = true
+						o.Saved, _ = os.ReadFile(target)
+					}
+				}()
 				err := f.Save(target)
-				if env.Sim != nil {
-					o.Fired = env.Sim.fsFired
-					env.Sim.armFS(nil, false)
-				}
-				for _, c := range simhook.FSLog {
-					rel, _ := filepath.Rel(sub, c.Name)
-					rel = stableName(rel)
-					o.FSLog = append(o.FSLog, fmt.Sprintf("%s %s size=%d partial=%d injected=%q err=%v", c.Op, rel, c.Size, c.Partial, digitsRe.ReplaceAllString(strings.ReplaceAll(c.Injected, env.Sandbox, "$SANDBOX"), "N"), c.Err != ""))
-				}
-				o.FSAfter = snapshotDir(sub)
-				if st, e := os.Lstat(target); e == nil && st.Mode().IsRegular() {
-					o.SavedOK = true
-					o.Saved, _ = os.ReadFile(target)
-				}
 				if err != nil {
 					o.OK = false
 					o.Err = err.Error()
